@@ -15,6 +15,7 @@ pub mod logs;
 pub mod ops;
 pub mod serde1;
 pub mod serde2;
+pub mod wheel;
 
 pub fn dispatch(ctx: &mut Ctx) {
     match ctx.prop.as_str() {
@@ -45,6 +46,7 @@ pub fn dispatch(ctx: &mut Ctx) {
         "C23" => serde2::run_c23(ctx),
         "C24" => serde2::run_c24(ctx),
         "C25" => c25::run(ctx),
+        "C26" | "C28" => wheel::run(ctx),
         "C30" => c30::run(ctx),
         "C31" => c08::run_c31(ctx),
         p => panic!("no monitor for {p}"),
